@@ -6,13 +6,15 @@ from harness import common
 from harness.common import Result
 
 PROP = 'C20'
-LEAN_TARGETS = ['TxV.Props.C20']
-PROP_MODULES = ['TxV.Props.C20']
+LEAN_TARGETS = ['TxV.Props.C20', 'TxV.Props.C20b']
+PROP_MODULES = ['TxV.Props.C20', 'TxV.Props.C20b']
 AUDIT = 'Audit/C20.lean'
 ANCHORS = ['txtorcon/addrmap.py', 'txtorcon/torstate.py']
 RULE = ('histories of 1..30 inputs over 3 names x 2 private addresses each: ADDRMAP lines in Tor\'s forms (local-time field only; local time + '
         'EXPIRES="utc"; NEVER; <error> ... error=yes; CACHED flags) with expiry offsets from -10 s to +400 days relative to the fake clock, '
         'interleaved with clock advances from 0 s to 40 days; after every input the clock ticks once and every name and address is looked up; '
+        'a third of the histories reach the map through a real TorState (0..3 leading lines as the GETINFO address-mappings/all reply of the bootstrap, '
+        'in Tor\'s single-line form when there is one, the rest as 650 ADDRMAP events); '
         'a second stream lets names share addresses (outside H, compared impl-vs-model only). Thorough adds all histories of length <= 4 over a '
         'reduced alphabet. non-trivial = at least two lines for one name or an expiry; distinct = distinct histories')
 TRUSTED = ["shlex.split, datetime.strptime, utcnow (pinned to the fake clock, whole seconds) — the line enters the model tokenised",
@@ -89,11 +91,14 @@ class Impl:
         self.map.scheduler = self.clock
         self.map.add_listener(L())
 
+    def feed(self, text):
+        self.map.update(text)
+
     def do(self, op):
         start = len(self.log)
         try:
             if op[0] == 'line':
-                self.map.update(render_line(op)[0])
+                self.feed(render_line(op)[0])
             else:
                 self.clock.advance(op[1])
             self.clock.advance(0)
@@ -109,7 +114,44 @@ class Impl:
             return 'KeyError'
 
 
+class StateImpl(Impl):
+    """the same map, reached the way an application reaches it: a real TorState over a (fake) control connection; the first
+    `boot` lines are what GETINFO address-mappings/all answers during the bootstrap, the others arrive as ADDRMAP events"""
+
+    def __init__(self, boot_lines):
+        Impl.__init__(self)
+        from harness.simtor import SimTor
+        from txtorcon import TorState
+        listener = self.map.listeners[0]
+        self.st = SimTor()
+        self.st.info['address-mappings/all'] = list(boot_lines)
+        self.st.connect()
+        self.st.hold_prefixes.add('GETINFO')
+        self.state = TorState(self.st.proto)
+        self.map = self.state.addrmap
+        self.map.scheduler = self.clock
+        self.map.add_listener(listener)
+        self.st.hold_prefixes.discard('GETINFO')
+        while self.st.held:
+            self.st.release()
+        self.boot_failed = []
+        self.state.post_bootstrap.addErrback(lambda f: self.boot_failed.append(f.type.__name__) and None)
+        if not self.state.post_bootstrap.called:
+            self.boot_failed.append('pending')
+        self.clock.advance(0)
+
+    def feed(self, text):
+        self.st.event('ADDRMAP ' + text)
+
+
 NAMES = [1, 2, 3]
+
+
+def merge_boot(trace, k):
+    """the first k inputs arrive together (one GETINFO reply): their notifications are compared as one set, lookups after the last"""
+    if k <= 1:
+        return trace
+    return [[sorted(o for st in trace[:k] for o in st[0]), trace[k - 1][1]]] + trace[k:]
 
 
 def all_addrs():
@@ -117,10 +159,27 @@ def all_addrs():
 
 
 def run_impl(c):
-    im = Impl()
     trace = []
-    for op in c['ops']:
-        outs = im.do(op)
+    ops = c['ops']
+    if 'boot' in c:
+        k = c['boot']
+        try:
+            im = StateImpl([render_line(op)[0] for op in ops[:k]])
+        except Exception as e:
+            return [['boot-exc', type(e).__name__]]
+        if im.boot_failed:
+            return [['boot-failed', im.boot_failed[0]]]
+        if k:
+            pre = list(im.log)
+            del im.log[:]
+            ops = [['advance', 0]] + ops[k:]      # the lookups after the bootstrap
+        else:
+            pre = []
+    else:
+        im, pre, k = Impl(), [], 0
+    for op in ops:
+        outs = pre + im.do(op)
+        pre = []
         outs = [o.replace('.example', '').replace('added n', 'added ').replace('expired n', 'expired ') for o in outs]
         look = {}
         for n in NAMES:
@@ -162,10 +221,27 @@ def gen_history(rng, share, maxlen=30):
     return {'ops': ops, 'share': share}
 
 
+def boot_prefix(c):
+    """how many leading lines can be sent as one GETINFO reply with the same meaning as one at a time: the lines of one reply
+    are taken in without the clock ticking in between, so a mapping that is already over when it arrives must not be followed,
+    in the same reply, by another line for its name (one at a time it would be announced and expire first)"""
+    n = 0
+    ops = c['ops']
+    while n < len(ops) and ops[n][0] == 'line':
+        if any(o[1] == ops[n][1] and o[4] is not None and o[4] <= 0 and o[2] != 'error' for o in ops[:n]):
+            break
+        n += 1
+    return n
+
+
 def gen_cases(rng, tier):
     n = 400 if tier == 'quick' else 20000
     for k in range(n):
-        yield gen_history(rng, share=(k % 8 == 7))
+        c = gen_history(rng, share=(k % 8 == 7))
+        if k % 3 == 2:
+            # through a real TorState: 0..all of the leading lines in the bootstrap's GETINFO reply, the rest as events
+            c['boot'] = rng.randint(0, min(3, boot_prefix(c)))
+        yield c
     if tier == 'thorough':
         alpha = [['line', 1, 1, 'utc', 5, 5], ['line', 1, 2, 'utc', 2, 2], ['line', 1, 1, 'never3', None, None], ['line', 1, 'error', 'error', 9, 9],
                  ['line', 2, 3, 'utc', 3, 3], ['advance', 1], ['advance', 3], ['line', 1, 1, 'local3', 4, None]]
@@ -219,6 +295,7 @@ def run_cases(cases, drv, tier):
                     looks_m[key], looks_s[key] = lm, ls
                 model.append([sorted([] if mo == '-' else mo.split(';')), looks_m])
                 spec.append([sorted([] if so == '-' else so.split(';')), looks_s])
+            model, spec = merge_boot(model, c.get('boot', 0)), merge_boot(spec, c.get('boot', 0))
         in_h = not c['share']
         nlines = {}
         for op in c['ops']:
@@ -226,7 +303,8 @@ def run_cases(cases, drv, tier):
                 nlines[op[1]] = nlines.get(op[1], 0) + 1
         expired = any(o.startswith('expired') for st in im for o in st[0])
         forms = sorted({op[3] for op in c['ops'] if op[0] == 'line'})
-        tags = ['len=%d' % min(len(c['ops']) // 10 * 10, 30), 'expiry' if expired else 'no-expiry', 'share' if c['share'] else 'noshare'] + ['form:' + f for f in forms]
+        tags = ['len=%d' % min(len(c['ops']) // 10 * 10, 30), 'expiry' if expired else 'no-expiry', 'share' if c['share'] else 'noshare',
+                ('via-torstate-boot=%d' % c['boot']) if 'boot' in c else 'direct'] + ['form:' + f for f in forms]
         res.append(Result(c, im, model, spec if in_h else None, in_h=in_h,
                           nontrivial=expired or any(v >= 2 for v in nlines.values()), tags=tags))
     return res
